@@ -104,7 +104,12 @@ impl PrettyPrint {
         // Arrows pointing the the relevant position
         let end = end + 1;
         let arrows = "^".repeat(end.saturating_sub(start));
-        let offset = start.saturating_sub(first_non_ws);
+        // `start` and `first_non_ws` count characters; convert to a byte offset
+        // of `base` (which can contain multi-byte whitespace).
+        let offset = base
+            .char_indices()
+            .nth(start.saturating_sub(first_non_ws))
+            .map_or(base.len(), |(i, _)| i);
         base.replace_range(offset.., &arrows);
 
         let aligned = text.trim();
